@@ -158,15 +158,23 @@ fn eor_frame(f: u64) -> Vec<u8> {
 pub(super) fn tcp_ok(evs: &[Ev]) -> bool {
     let mut maybe_up = false;
     let mut admin = false;
+    let mut sess: Vec<u64> = Vec::new();
     for e in evs {
         match e {
-            Ev::Est { .. } => {
+            Ev::Est { fams, .. } => {
                 if maybe_up || admin {
                     return false;
                 }
                 maybe_up = true;
+                sess = fams.clone();
             }
-            Ev::Ann(..) | Ev::Eor(_) | Ev::GrTimer | Ev::LlgrTimer(_) => {}
+            Ev::Eor(f) => {
+                // the End-of-RIB of IPv4 unicast is the empty UPDATE; another family's needs the family
+                if !(*f == 0 || !maybe_up || sess.contains(f)) {
+                    return false;
+                }
+            }
+            Ev::Ann(..) | Ev::GrTimer | Ev::LlgrTimer(_) => {}
             Ev::Down(r) => {
                 if !matches!(r, Reason::Io | Reason::Remote(..) | Reason::Fsm) {
                     return false;
@@ -374,7 +382,7 @@ pub(super) async fn run_tcp(evs: Vec<Ev>) -> String {
                 }
             }
             Ev::Eor(f) => {
-                if t.client.is_some() && session_up(&w) && t.fams.contains(&f) {
+                if t.client.is_some() && session_up(&w) && (f == 0 || t.fams.contains(&f)) {
                     let _ = t.client.as_mut().unwrap().write_all(&eor_frame(f)).await;
                 }
             }
